@@ -239,7 +239,7 @@ func zremKeyFunc(cmd []string) (internal.KeyExtractionFuncResult, error) {
 }
 
 func zrevrankKeyFunc(cmd []string) (internal.KeyExtractionFuncResult, error) {
-	if len(cmd) < 3 {
+	if len(cmd) < 3 || len(cmd) > 4 {
 		return internal.KeyExtractionFuncResult{}, errors.New(constants.WrongArgsResponse)
 	}
 	return internal.KeyExtractionFuncResult{
